@@ -263,6 +263,15 @@ def _check_day(out, dt, ymd, dt2str, y, m, d):
             same('uk:dd%smm%syyyy HH:MM:SS' % (sep, sep), 'dt(%r)' % s, tsec, dt, s)
             s = '%02d%s%02d%s%04d %s' % (m, sep, d, sep, y, hms)
             same('us:mm%sdd%syyyy HH:MM:SS' % (sep, sep), "dt(%r, dialect='us')" % s, tsec, dt, s, dialect='us')
+            # the time of day joined to the year by the ISO 'T' instead of a space: the date part is read in the dialect all the same
+            s = '%02d%s%02d%s%04dT%s' % (d, sep, m, sep, y, hms)
+            same('uk:dd%smm%syyyyTHH:MM:SS' % (sep, sep), 'dt(%r)' % s, tsec, dt, s)
+            if d > 12:
+                D.rejected('us reads dd%smm%syyyyTHH:MM:SS' % (sep, sep), "dt(%r, dialect='us')" % s, dt, s, dialect='us')
+            s = '%02d%s%02d%s%04dT%s' % (m, sep, d, sep, y, hms)
+            same('us:mm%sdd%syyyyTHH:MM:SS' % (sep, sep), "dt(%r, dialect='us')" % s, tsec, dt, s, dialect='us')
+            if d > 12:
+                D.rejected('uk reads mm%sdd%syyyyTHH:MM:SS' % (sep, sep), 'dt(%r)' % s, dt, s)
         s = '%d %s %04d %s' % (d, full, y, hms)
         same('uk:d Month yyyy HH:MM:SS', 'dt(%r)' % s, tsec, dt, s)
         same('us:d Month yyyy HH:MM:SS', "dt(%r, dialect='us')" % s, tsec, dt, s, dialect='us')
@@ -364,6 +373,21 @@ def check_overflow(case):
         if not isinstance(got, DATETIME) or got.tzinfo is not None or not (got == expected):
             out.viol('overflow-wrong', 'dt(%d, %d, %d): expected %r (= first day of %04d-%02d plus %d days), observed %r' % (
                 y, m, d, expected, Y, M, d - 1, got), month='in' if month_ok else 'out', day='in' if day_ok else 'out')
+    # the same rule when the parts go on with a time of day: dt(y, m, d, H[, M, S]) is dt(y, m, d) plus that time
+    for d in (D_LO, -31, -1, 0, 1, n_in, n_in + 1, 29, 30, 31, 32, 60, D_HI):
+        expected = first + (d - 1) * DAY
+        for parts, add in (((10,), datetime.timedelta(hours=10)), ((10, 20), datetime.timedelta(hours=10, minutes=20)), ((10, 20, 30), datetime.timedelta(hours=10, minutes=20, seconds=30))):
+            out.sub()
+            try:
+                got = dt(y, m, d, *parts)
+                out.call()
+            except Exception as e:
+                out.viol('overflow-raised', 'dt(%d, %d, %d, %s): expected %r, raised %s: %s' % (y, m, d, ', '.join(map(str, parts)), expected + add, type(e).__name__, e),
+                         month='in' if month_ok else 'out', day='in' if 1 <= d <= n_in else 'out', time_parts=len(parts))
+                continue
+            if not isinstance(got, DATETIME) or got.tzinfo is not None or not (got == expected + add):
+                out.viol('overflow-wrong', 'dt(%d, %d, %d, %s): expected %r (= dt(y, m, d) plus the time of day), observed %r' % (y, m, d, ', '.join(map(str, parts)), expected + add, got),
+                         month='in' if month_ok else 'out', day='in' if 1 <= d <= n_in else 'out', time_parts=len(parts))
     n = D_HI - D_LO + 1
     out.sub(n)
     out.call(n)
